@@ -45,7 +45,7 @@ PROPERTY_MODULES = {
 # differential runs of the real code against clingo on the small corpus of native/corpus.py.  Labelled bounded in the
 # evidence and never counted among the discharged obligations; a *found* failing input is reported as a VIOLATION.
 STANDINS = {
-    "C03": [{"mirror": "corpus_no_exception"}],
+    "C03": [{"mirror": "corpus_no_exception"}, {"mirror": "generated_no_exception"}],
     "C04": [{"mirror": "valid_output_bounded"}],
     "C05": [{"mirror": "corpus", "trait": "none"}],
     "C08": [{"mirror": "corpus", "trait": "cleanup"}, {"mirror": "generated", "trait": "cleanup"}],
